@@ -40,6 +40,13 @@ BIN_FUNCS = {
 }
 
 
+_INTEGRAL = {"int", "long", "unsigned long", "unsigned int", "short", "unsigned short", "long long", "unsigned long long", "signed char", "unsigned char", "char"}
+
+
+def _integral(t):
+    return (t or "").replace("const ", "").strip() in _INTEGRAL
+
+
 class Conv:
     """tree -> sympy. `atoms` maps canonical text (pp) of opaque sub-expressions to symbol names;
     `funcs` maps qualified callee names to python callables on sympy args."""
@@ -139,6 +146,11 @@ class Conv:
                 return sp.Not(x)
             raise OutOfFragment("unary " + n["op"])
         if k == "bin":
+            if n["op"] == "/" and _integral(n.get("t")):
+                # C++ integer division truncates: do not model it as the rational quotient
+                a, b = self.conv(c[0]), self.conv(c[1])
+                q = a / b
+                return q if (q.is_Integer or getattr(self, "rational_int_div", False)) else sp.floor(q)
             return self.binop(n["op"], self.conv(c[0]), self.conv(c[1]), text)
         if k == "cond":
             cnd = self.conv(c[0])
